@@ -7,6 +7,5 @@ CONSTANTS
   None <- NoneV
   Family = "three"
 INVARIANT PropertyHolds
-INVARIANT PropertyOrKnown
 INVARIANT OrderFree
 CHECK_DEADLOCK FALSE
